@@ -168,6 +168,11 @@ func (dest *Destination) Update(opts map[string]string) error {
 	}
 	if addr != "" {
 		dest.updateConn(addr)
+		// updateConn takes over the instance only together with a new host:port.
+		// an address that keeps host:port may still change (or drop) the instance.
+		if a, instance := addrInstanceSplit(addr); a == dest.Addr {
+			dest.Instance = instance
+		}
 	}
 	if updateMatcher {
 		match, err := matcher.New(prefix, notPrefix, sub, notSub, regex, notRegex)
